@@ -14,11 +14,8 @@ def run(tier, seed):
     agg, samples = summarise(res)
     ncand, nconf, nunconf, details = sc.process(sr, res, rep, ("obligation", "port_exception"), lambda w: not w.startswith(sc.C03_WHATS))
     extra_results = []
-    try:
-        import prim_layer
-        extra_results = prim_layer.run_c04(sr, rep, tier)
-    except ImportError:
-        pass
+    import prim_layer
+    extra_results = prim_layer.run_c04(sr, rep, tier)
     cov = {"candidates": ncand, "confirmed": nconf, "unconfirmed": nunconf, "details": details[:20], "extra_layers": extra_results}
     return sc.finish("C04", tier, seed, "model_checking", sr, res, rep, agg, samples, cov, t0,
                      "per symbolic path of every scheme: creation times >= 0, energies in [0,10] MeV, primitive preconditions (Egamma > binding energy when the conversion coefficient is > 0), <= 100 particles, non-decreasing times")
